@@ -578,3 +578,70 @@ def c05_read_filters(tier, rng):
     return {"obligations": obl, "discharged": dis, "violations": viol, "cases": obl, "exhaustive": True,
             "bound": "2 loops x flags x MAPQ {0,1,4,5,6,60} x exons {1,2,3} x all assignment types x {--no_secondary} x {--min_mapq}",
             "samples": [{"method": "process_genic", "assignment_type": "ambiguous", "mapq": 0, "dropped": False}]}
+
+
+# ---- the composition: whatever the pieces a cluster is cut into, every stored alignment is handed to at least one of them ------------------------------
+def _forward_case(seed):
+    """a cluster longer than 32 kb (a pile-up of 220-400 reads followed by a thin tail of reads whose starts sit on and next to bin
+    boundaries) in a real InMemoryAlignmentStorage, through the real AlignmentCollector.forward_alignments (split_coverage_regions,
+    get_alignments) with process_alignments_in_region replaced by a recorder: returns (number of pieces, problems)"""
+    import random
+    ap = native.repo_import("src/alignment_processor.py")
+    rng = random.Random(seed)
+    st = ap.InMemoryAlignmentStorage()
+    reads = []
+    base = 256 * rng.randint(0, 40)
+    for k in range(rng.randint(220, 400)):
+        s_ = base + rng.randint(0, 600)
+        reads.append((s_, s_ + rng.randint(300, 1500)))
+    pos = base + 2500
+    while pos < base + 36000 + rng.randint(0, 8000):
+        s_ = rng.choice([pos, 256 * (pos // 256), 256 * (pos // 256) + 1, 256 * (pos // 256) + 1, 256 * (pos // 256) + 255, 256 * (pos // 256) - 1])
+        reads.append((s_, s_ + rng.choice([100, 200, 200, 400, 900, 3000])))
+        pos += rng.choice([150, 256, 256, 256, 300, 512])
+    reads.sort()
+    objs = [_StubAlignment(a, b) for a, b in reads]
+    for k, o in enumerate(objs):
+        o.query_name = "r%d" % k
+        st.add_alignment(0, o)
+    st.fill_index()
+    c = ap.AlignmentCollector.__new__(ap.AlignmentCollector)
+    pieces = []
+    c.process_alignments_in_region = lambda region, alns: pieces.append((region, [a.query_name for _b, a in alns])) or region
+    list(c.forward_alignments(st))
+    problems = []
+    seen = set(n for _r, names in pieces for n in names)
+    missing = [o.query_name for o in objs if o.query_name not in seen]
+    if missing:
+        m = objs[int(missing[0][1:])]
+        problems.append("%d pieces %s: %d of %d alignments are handed to no piece, e.g. %s at %d-%d" % (len(pieces), [r for r, _ in pieces], len(missing), len(objs), m.query_name, m.reference_start, m.reference_end))
+    return len(pieces), problems
+
+
+def replay_forward(d):
+    n, p = _forward_case(d["inputs"]["seed"])
+    return (not p), "seed %s: %d pieces; %s" % (d["inputs"]["seed"], n, p or "every alignment handed to a piece")
+
+
+@bounded("C05.forward_alignments_cover", ["C05"], note="clusters longer than 32 kb (a pile-up and a thin tail, read starts on and next to 256-bp bin boundaries) in the "
+         "real InMemoryAlignmentStorage through the real forward_alignments / split_coverage_regions / get_alignments, the per-piece processing replaced by a "
+         "recorder: every stored alignment is handed to at least one piece, however the cluster is cut")
+def c05_forward_cover(tier, rng):
+    n = 150 if tier == "quick" else 2000
+    base = rng.randrange(10 ** 9)
+    split = 0
+    for k in range(n):
+        try:
+            np_, p = _forward_case(base + k)
+        except Exception as e:
+            np_, p = 0, ["exception %s: %s" % (type(e).__name__, e)]
+        split += np_ > 1
+        if p:
+            return {"cases": k + 1, "bound": "%d clusters" % n, "violations": [{
+                "obligation": "C05.forward_alignments_cover", "inputs": {"seed": base + k}, "observed": p[:2],
+                "required": "no alignment lost to the cut", "replay_call": "contracts.c_alignments:replay_forward"}]}
+    viol = []
+    if split == 0:
+        viol.append({"obligation": "C05.forward_alignments_cover.nontrivial", "inputs": None, "observed": "no cluster was split in %d cases" % n,
+                     "required": "some split clusters", "undecided": True})
+    return {"cases": n, "bound": "%d random clusters (%d of them split into several pieces)" % (n, split), "violations": viol, "samples": [{"seed": base, "split": split}]}
